@@ -617,9 +617,24 @@ def explore(mods, sc, tier, bag, herr, stats):
             ref['map'], sort_keys=True, ensure_ascii=False).encode('utf-8'))
         for ch in set(pay.decode('ascii')):
             stats['b64:' + ch] += 1
+    first = set(s for s, _ in judge(mods, sc, (), r0, ref)[0])
     again = execute(mods, sc, ())
+    # a later call must leave the streams of an earlier call alone and must
+    # itself behave like the first: the first run's stream doubles are
+    # judged once more after the second run, and the second run is judged
+    late = [(s, d) for s, d in judge(mods, sc, (), r0, ref)[0]
+            if s not in first]
+    late += [(s, d) for s, d in judge(mods, sc, (), again, ref)[0]
+             if s not in first]
+    for sig, detail in late:
+        w = witness(sc, ())
+        w['repeat'] = 2
+        bag.add(sig + '|same-call-made-twice', w, detail)
+    stats['repeated_fault_free_runs'] += 1
     if again.ctl.log != r0.ctl.log:
-        herr.append('fault-free site log not reproducible for %r' % dict(sc))
+        if not late:
+            herr.append('fault-free site log not reproducible for %r'
+                        % dict(sc))
         return
     if sc['api'] == 'write' and not (sc['norm_paths'] and sc['norm_maps']):
         # the normalise flags only change the values handed to the lower
@@ -750,4 +765,11 @@ def replay(w):
     ref = reference(mods, sc)
     r = execute(mods, sc, faults)
     vio, outcome = judge(mods, sc, faults, r, ref)
+    if w.get('repeat'):
+        first = set(s for s, _ in vio)
+        again = execute(mods, sc, faults)
+        late = judge(mods, sc, faults, r, ref)[0] + judge(
+            mods, sc, faults, again, ref)[0]
+        vio = vio + [(s + '|same-call-made-twice', d) for s, d in late
+                     if s not in first]
     return [{'sig': s, 'detail': d} for s, d in vio]
